@@ -6,6 +6,7 @@ CONSTANTS Variant = "ok"
  TypesId = "dr"
  Sequential = TRUE
  Focus = {1}
+ MaxActive = 2
  MaxDup = 0
  MaxForge = 0
  MaxHold = 0
